@@ -57,6 +57,15 @@ MISMATCH = [
     ('column-on-multizone', [R.Action('set', [L('Z', matrix=('inline', None, (N(value=0), N(value=1))))])]),
     ('block-on-plain', [R.Action('set', [L('A', matrix=('block', [R.Stage((N(value=0), None), None)]))])]),
     ('block-on-unknown', [R.Action('set', [L('Q', matrix=('block', [R.Stage((N(value=0), None), None)]))])]),
+    # the same after a matrix command to a real matrix light (nothing of it may be left behind), and with indices no light has
+    ('row-on-unknown-after-matrix', [R.Action('set', [L('M', matrix=('inline', (N(value=1), N(value=2)), None))]), R.Action('set', [L('Q', matrix=('inline', (N(value=7), None), None))])],
+     [('tile', 'M')]),
+    ('row-on-plain-after-matrix', [R.Action('set', [L('M', matrix=('inline', (N(value=0), None), None))]), R.Action('set', [L('A', matrix=('inline', (N(value=200), None), (N(value=100), N(value=120))))])],
+     [('tile', 'M')]),
+    ('block-on-unknown-after-matrix', [R.Action('set', [L('M', matrix=('inline', None, (N(value=0), None)))]),
+                                      R.Action('set', [L('Q', matrix=('block', [R.Stage((N(value=9), N(value=12)), None), R.Stage(None, (N(value=40), None))]))])], [('tile', 'M')]),
+    ('huge-row-on-plain', [R.Action('set', [L('A', matrix=('inline', (N(value=255), None), None))])]),
+    ('huge-column-on-unknown', [R.Action('set', [L('Q', matrix=('inline', None, (N(value=1000), None)))])]),
     ('get-unknown', [R.Get(R.Str('Q'))]),
     ('get-multizone', [R.Get(R.Str('Z'))]),
 ]
@@ -253,7 +262,8 @@ def replay_fault(case, prog, slots, cv, faulty, log):
 
 
 def mismatch_worker(args):
-    tag, body = args['mismatch']
+    tag, body, *rest = args['mismatch']
+    expected = [('color', 'B')] + (rest[0] if rest else []) + [('color', 'C'), ('power', 'B')]
     # the mismatching command sits between ordinary commands to healthy devices
     stmts = pre() + [R.Action('set', [L('B')])] + body + [R.Action('set', [L('C')]), R.Action('on', [L('B')])]
     case = scripth.Case(stmts, specs=SPECS, tag='mismatch-%s' % tag)
@@ -279,8 +289,8 @@ def mismatch_worker(args):
             problem = 'script aborted: %s' % net.aborted
         elif end.get('pc') != end.get('n'):
             problem = 'script stopped early'
-        elif kinds != [('color', 'B'), ('color', 'C'), ('power', 'B')]:
-            problem = 'commands reaching the devices: %r (expected only set B, set C, on B)' % (kinds,)
+        elif kinds != expected:
+            problem = 'commands reaching the devices: %r (expected only %r)' % (kinds, expected)
         if problem is None:
             res.reached.add('mismatch')
             continue
@@ -296,7 +306,7 @@ def mismatch_worker(args):
             e2 = {}
             n2 = scripth.run_vm(case, prog, slots, cv, post=lambda n, m: e2.update(pc=m._reg.pc, n=len(m._program)))
             k2 = [(e[0], e[1]) for e in n2.trace if e[0] in ('color', 'power', 'zone', 'tile')]
-            msg = n2.aborted or (None if k2 == [('color', 'B'), ('color', 'C'), ('power', 'B')] and e2.get('pc') == e2.get('n') else repr(k2))
+            msg = n2.aborted or (None if k2 == expected and e2.get('pc') == e2.get('n') else repr(k2))
         finally:
             world.install_real_mode()
             symx.Ctx.cur = saved
